@@ -135,6 +135,7 @@ rx("m19b", "C19", "zogSchema.go", r"\t\t\t\*destPtr = \*defaultVal\n", "\t\t\tde
 rx("m19c", "C19", "boolean.go", r"(func \(v \*BoolSchema\[T\]\) validate\(ctx \*p\.SchemaCtx\) \{\n)", "${1}\t*(ctx.ValPtr.(*T)) = T(false)\n", "validate-write-sites")
 rx("m19d", "C19", "slices.go", r"def := p\.DeepCopyValue\(reflect\.ValueOf\(v\.defaultVal\)\)", "def := reflect.ValueOf(v.defaultVal)", "default-not-aliased", "F27 reverted: the default copied one level deep")
 rx("m19e", "C19", "slices.go", r"refVal = p\.DeepCopyValue\(reflect\.ValueOf\(v\.defaultVal\)\)", "refVal = reflect.ValueOf(v.defaultVal)", "default-not-aliased", "F28 reverted: the default's own items handed to the item schemas")
+rx("m19f", "C19", "internals/utils.go", r"\t\t\tif f := cp\.Field\(i\); f\.CanSet\(\) \{\n\t\t\t\tf\.Set\(DeepCopyValue\(v\.Field\(i\)\)\)\n\t\t\t\}\n", "", "default-not-aliased", "the clone copies a struct whole and none of its fields: their slices, maps and pointers stay shared")
 # ---- C20
 rx("m20a", "C20", "internals/tests.go", r"return len\(\*x\) >= n", "return len(*x) > n", "predicate")
 rx("m20b", "C20", "time.go", r"return val\.Equal\(t\)", "return *val == t", "predicate")
